@@ -291,3 +291,29 @@ Proof.
     rewrite (u64_sm (n * b)) by lia. rewrite (u64_sm (n * b * t)) by nia. rewrite Z.mul_1_r. rewrite (u64_sm (n * b * t)) by nia.
     repeat split; try reflexivity; lia.
 Qed.
+
+(* ---------- the decisions of sc_mpi_comm_attach_node_comms as a whole ------------------------------------------------------------------ *)
+(* does this call attach?  explicit processes_per_node: always; MPI_Comm_split_type: iff all nodes have the same size *)
+Definition attach_attaches (ppn mx mn : Z) : bool := negb (ppn <? 1) || (mx =? mn).
+(* generated: (split_type called, Comm_free called, internode split of the split_type branch, the two splits of the explicit branch,
+   Alloc_mem called, Comm_set_attr called, on which communicator) - there is no other path through the function *)
+Lemma gen_attach_decisions ppn mx mn cm x1 x2 x3 x4 x5 x6 x7 x8 x9 x10 x11 x12 x13 x14 x15 x16 x17 x18 :
+  attach_decisions ppn mx mn cm x1 x2 x3 x4 x5 x6 x7 x8 x9 x10 x11 x12 x13 x14 x15 x16 x17 x18 =
+  if ppn <? 1 then (if mx =? mn then (1, 0, 1, 0, 0, 1, 1, cm) else (1, 1, 0, 0, 0, 0, 0, 0)) else (0, 0, 0, 1, 1, 1, 1, cm).
+Proof. unfold attach_decisions. cbv zeta. destruct (ppn <? 1); [destruct (mx =? mn)|]; reflexivity. Qed.
+
+(* ... and these are the steps of the life cycle (ShmemModel.hstep): an attach that attaches creates two communicators and sets the
+   attribute of THIS communicator (MPI_Comm_set_attr runs the delete callback on the value attached before); a refused one creates one
+   communicator, frees it and changes nothing else *)
+Lemma gen_attach_decisions_model (D : Type) (d : D) (s : hstate D) c ppn mx mn cm x1 x2 x3 x4 x5 x6 x7 x8 x9 x10 x11 x12 x13 x14 x15 x16 x17 x18 :
+  h_valid D s c = true ->
+  let '(st, fr, s1, s2, s3, al, sa, sc) := attach_decisions ppn mx mn cm x1 x2 x3 x4 x5 x6 x7 x8 x9 x10 x11 x12 x13 x14 x15 x16 x17 x18 in
+  exists s', hstep D s (HAttach D c (if attach_attaches ppn mx mn then Some d else None)) = Some s' /\
+  zn (h_next D s') = zn (h_next D s) + (st + s1 + s2 + s3) /\ st + s1 + s2 + s3 - fr = 2 * sa /\ al = sa /\
+  z2b sa = attach_attaches ppn mx mn /\ (z2b sa = true -> sc = cm /\ h_division D s' c = Some d) /\
+  (z2b sa = false -> h_attr D s' = h_attr D s).
+Proof.
+  intros V. rewrite gen_attach_decisions. unfold attach_attaches.
+  destruct (ppn <? 1); [destruct (mx =? mn)|]; cbn [negb orb hstep]; rewrite V; eexists; (split; [reflexivity|]); cbn [h_next h_attr];
+    unfold h_division; cbn [h_attr]; unfold upd; rewrite ?Nat.eqb_refl; repeat split; try reflexivity; try lia; try discriminate.
+Qed.
